@@ -492,7 +492,9 @@ func RunC02(d *Driver) *Report {
 		evalStream(r, d, "builtins", src, RunOpts{}, parts, true, oracle)
 	}
 	for _, src := range c02Fixed() {
-		evalStream(r, d, "fixed", src, RunOpts{}, parts, true, oracle)
+		if c := evalStream(r, d, "fixed", src, RunOpts{}, parts, true, oracle); c.Skipped == "rejected" {
+			r.Disagree(Case{Stream: "fixed", Input: src, Real: "rejected: " + c.Real.ParseErr, Note: "harness program should be accepted"})
+		}
 	}
 	// every shape of a typed function's body (each branch of an if / else-if / else chain returning or not,
 	// loops, nesting): whatever the parser accepts is called so that each branch is taken, and the result
@@ -589,14 +591,32 @@ func RunC02(d *Driver) *Report {
 
 func c02Fixed() []string {
 	return []string{
-		"func f\n    g = 2\nend\nf\ng := 1\nprint g\n",
-		"func f:num\n    return g\nend\nprint (f)\ng := 1\nprint g\n",
+		"g := 1\nfunc f\n    g = 2\nend\nf\nprint g\n",
+		"g := 1\nprint (f)\nfunc f:num\n    return g\nend\nprint g\n",
 		"x:any\nprint x (typeof x)\nx = [1 2]\nprint (typeof x) x.([]num)[0]\nx = {a:1}\nprint (typeof x)\nprint x.(num)\n",
 		"a:[]any\na = [1 \"x\" [2]]\nprint (typeof a) (typeof a[0]) (typeof a[2])\nb := a[2].([]num)\nprint b\nprint a[1].(num)\n",
 		"m:{}any\nm.a = 1\nm.b = [1]\nprint (typeof m) (typeof m.a) (typeof m.b) m\n",
 		"a := [1 2 3]\nprint a[1.5]\n",
-		"a := [1 2 3]\nprint a * 1.5\n",
-		"a := [1 2 3]\nprint a * -1\n",
+		"a := [1 2 3]\nprint (a * 1.5)\n",
+		"a := [1 2 3]\nprint (a * -1)\n",
+		"a := [1 2 3]\nx := a * 1.5\nprint x\n",
+		"a := [1 2 3]\nx := a * -2\nprint x\n",
+		"a := [1 2 3]\nx := a * 1000000000000\nprint (len x)\n",
+		"a := [1 2 3]\nx := a * (0/0)\nprint x\n",
+		"a := [1 2 3]\nx := a * (1/0)\nprint x\n",
+		"e:[]num\nx := e * -1\nprint x\n",
+		"e:[]num\nx := e * 0.5\nprint x\n",
+		"a := [1 2 3]\nx := a * 0\ny := a * 1\nz := a * 2\nprint x y z (len z)\n",
+		// domain errors of the graphics built-ins (modelled glue: argument counts, ranges, property types)
+		"clear \"red\" \"blue\"\n", "clear\nclear \"red\"\nprint \"ok\"\n",
+		"print (hsl 361)\n", "print (hsl -1)\n", "print (hsl 10 101)\n", "print (hsl 10 50 -1)\n", "print (hsl 10 50 50 101)\n", "print (hsl 1 2 3 4 5)\n", "x := hsl\nprint x\n",
+		"print (hsl 0) (hsl 360) (hsl 120 100 50) (hsl 120 0 0 0) (hsl 0.5 99.5 50 100)\n",
+		"font {size:\"big\"}\n", "font {family:1}\n", "font {nope:1}\n", "font {size:0}\n", "font {weight:-1}\n", "font {align:\"diagonal\"}\n", "font {baseline:\"x\"}\n",
+		"font {size:2 family:\"a\" style:\"italic\" weight:700 letterspacing:1 baseline:\"top\" align:\"center\"}\nprint \"ok\"\n",
+		"gridn 0 \"red\"\n", "gridn -1 \"red\"\n", "gridn (0/0) \"red\"\n", "gridn 5 \"red\"\ngrid\nprint \"ok\"\n",
+		"ellipse 1 2\n", "ellipse 1 2 3 4 5 6\n", "ellipse 1 2 3 4 5 6 7 8\n", "ellipse 1 2 3\nellipse 1 2 3 4\nellipse 1 2 3 4 5\nellipse 1 2 3 4 5 6 7\nprint \"ok\"\n",
+		"poly [1]\n", "poly [1 2 3]\n", "poly [1 2] [3]\n", "poly\npoly [1 2]\npoly [1 2] [3 4] [5 6]\nprint \"ok\"\n",
+		"dash\ndash 1\ndash 1 2 3\nlinecap \"round\"\nstroke \"red\"\nfill \"none\"\ntext \"t\"\nwidth 0\nwidth -1\ncolor \"\"\ncolour \"x\"\nprint \"ok\"\n",
 		"for i := range 1 5 0\n    print i\nend\n",
 		"print (1/0) (-1/0) (0/0) (5 % 0) (-5 % 3) (5.5 % 2)\n",
 		"s := \"aéb\"\nprint s[1] s[-1] s[0:2] (len s)\nfor c := range s\n    print c\nend\n",
@@ -645,7 +665,7 @@ func builtinSweep(rng *rand.Rand, thorough bool) []string {
 		names = append(names, n)
 	}
 	names = SortedKeys(decls.Funcs)
-	graphics := map[string]bool{"move": true, "line": true, "rect": true, "circle": true, "width": true, "color": true, "colour": true, "hsl": true, "clear": true, "grid": true, "gridn": true, "poly": true, "ellipse": true, "stroke": true, "fill": true, "dash": true, "linecap": true, "text": true, "font": true}
+	graphics := map[string]bool{"move": true, "line": true, "rect": true, "circle": true, "width": true, "color": true, "colour": true, "clear": true, "grid": true, "gridn": true, "poly": true, "ellipse": true, "stroke": true, "fill": true, "dash": true, "linecap": true, "text": true, "font": true}
 	var out []string
 	for _, name := range names {
 		if graphics[name] {
@@ -659,7 +679,11 @@ func builtinSweep(rng *rand.Rand, thorough bool) []string {
 		variadic := fd.VariadicParam != nil
 		if variadic {
 			vt := fd.VariadicParam.Type().String()
-			for k := 0; k <= 3; k++ {
+			maxArgs := 3
+			if name == "hsl" {
+				maxArgs = 5 // 1 to 4 components are valid
+			}
+			for k := 0; k <= maxArgs; k++ {
 				pt := make([]string, k)
 				for i := range pt {
 					pt[i] = vt
